@@ -11,6 +11,7 @@ from numpy.typing import NDArray  # noqa: TC002
 from ropt.config.enopt import EnOptConfig
 from ropt.ensemble_evaluator import EnsembleEvaluator
 from ropt.enums import EventType, OptimizerExitCode
+from ropt.exceptions import OptimizationAborted
 from ropt.optimization import EnsembleOptimizer
 from ropt.plan import Event, Plan
 from ropt.plugins.plan.base import PlanStep
@@ -90,14 +91,39 @@ class DefaultOptimizerStep(PlanStep):
         self._nested_optimization = nested_optimization
         self._metadata = metadata
 
-        self.emit_event(
-            Event(
-                event_type=EventType.START_OPTIMIZER_STEP,
-                config=self._config,
-                source=self.id,
+        # A handler or observer may abort the step at its start or finish event,
+        # this is handled like an abort at any other event:
+        try:
+            self.emit_event(
+                Event(
+                    event_type=EventType.START_OPTIMIZER_STEP,
+                    config=self._config,
+                    source=self.id,
+                )
             )
-        )
+            exit_code = self._run_optimizer(variables)
+        except OptimizationAborted as exc:
+            exit_code = exc.exit_code
 
+        if exit_code == OptimizerExitCode.USER_ABORT:
+            self.plan.abort()
+
+        try:
+            self.emit_event(
+                Event(
+                    event_type=EventType.FINISHED_OPTIMIZER_STEP,
+                    config=self._config,
+                    source=self.id,
+                )
+            )
+        except OptimizationAborted as exc:
+            exit_code = exc.exit_code
+            if exit_code == OptimizerExitCode.USER_ABORT:
+                self.plan.abort()
+
+        return exit_code
+
+    def _run_optimizer(self, variables: ArrayLike | None) -> OptimizerExitCode:
         if variables is None:
             variables = self._config.variables.initial_values
         variables = np.array(np.asarray(variables, dtype=np.float64), ndmin=1)
@@ -123,20 +149,7 @@ class DefaultOptimizerStep(PlanStep):
             msg = "Nested optimization detected: parallel evaluation not supported. "
             raise RuntimeError(msg)
 
-        exit_code = ensemble_optimizer.start(variables)
-
-        if exit_code == OptimizerExitCode.USER_ABORT:
-            self.plan.abort()
-
-        self.emit_event(
-            Event(
-                event_type=EventType.FINISHED_OPTIMIZER_STEP,
-                config=self._config,
-                source=self.id,
-            )
-        )
-
-        return exit_code
+        return ensemble_optimizer.start(variables)
 
     def emit_event(self, event: Event) -> None:
         """Emit an event.
